@@ -1,7 +1,7 @@
 //! A run = one trace executed against a fresh world; JSON form of traces (replay files).
 
 use crate::alloc::{self, enter, Ctx};
-use crate::elem::{pl_reset, Al, Elem, ElemKind, Pl, Tr, Zt};
+use crate::elem::{pl_reset, Al, Elem, ElemKind, Pl, Tr, Zp, Zt};
 use crate::ledger::{self, Seam, N_SEAMS};
 use crate::ops::*;
 use crate::world::*;
@@ -53,6 +53,7 @@ pub fn run_trace(t: &Trace, record: bool) -> RunResult {
         ElemKind::Zt => run::<Zt>(t, record),
         ElemKind::Pl => run::<Pl>(t, record),
         ElemKind::Al => run::<Al>(t, record),
+        ElemKind::Zp => run::<Zp>(t, record),
     }
 }
 
